@@ -95,8 +95,44 @@ Fixpoint reduce_range (aaps : list aap) (rng : list row) : res row :=
       Ok (match oc with Some c => rset r (a_out a) c | None => r end)))
   end.
 
+(* The accumulation loop runs ROW by row (for each row, every accumulator): the outcome of a failing range is that of
+   the first row on which some accumulator fails - a missing cell panics inside a sum, a cell that is not a literal of
+   the summed type is an error; count and count distinct never fail. *)
+Definition cell_fails (k : acc_kind) (c : option cell) : option bool :=     (* Some true = panic, Some false = error *)
+  match k with
+  | AccSumInt =>
+      match c with
+      | None => Some true
+      | Some (CL l) => match l_val l with VInt _ => None | _ => Some false end
+      | Some _ => Some false
+      end
+  | AccSumFloat =>
+      match c with
+      | None => Some true
+      | Some (CL l) => match l_val l with VFloat _ => None | _ => Some false end
+      | Some _ => Some false
+      end
+  | _ => None
+  end.
+
+Fixpoint row_failure (aaps : list aap) (r : row) : option bool :=
+  match aaps with
+  | [] => None
+  | a :: rest => match cell_fails (a_acc a) (rget r (a_in a)) with Some b => Some b | None => row_failure rest r end
+  end.
+
+Fixpoint first_failure (aaps : list aap) (rng : list row) : option bool :=
+  match rng with
+  | [] => None
+  | r :: t => match row_failure aaps r with Some b => Some b | None => first_failure aaps t end
+  end.
+
 Definition reduce_range_checked (aaps : list aap) (rng : list row) : res row :=
-  bind (reduce_range aaps rng) (fun r => match r with [] => Err EReduceEmptyRow | _ => Ok r end).
+  match first_failure aaps rng with
+  | Some true => Panic SNilCell
+  | Some false => Err EAccumulate
+  | None => bind (reduce_range aaps rng) (fun r => match r with [] => Err EReduceEmptyRow | _ => Ok r end)
+  end.
 
 (* toMap: a later pair with the same (in, out) replaces an earlier one *)
 Definition aap_same (a b : aap) : bool := N.eqb (a_in a) (a_in b) && N.eqb (a_out a) (a_out b).
